@@ -262,3 +262,88 @@ mod tests {
         assert_eq!(values.value(2), 60);
     }
 }
+
+/// Re-labels its input's columns without touching the data.
+///
+/// A derived table or CTE reference (`(SELECT a, b FROM t) x`) produces its
+/// body's column names (`a`, `b`); everything above it refers to them through
+/// the alias (`x.b`). Physical column resolution is by NAME, so two aliased
+/// subqueries with the same inner column names were indistinguishable after a
+/// join: `x.b` and `y.b` both fell back to the first column called `b`. This
+/// operator gives the alias's columns their qualified names, exactly like a
+/// table scan under an alias does.
+#[derive(Debug)]
+pub struct RenameExec {
+    input: Arc<dyn PhysicalOperator>,
+    schema: SchemaRef,
+}
+
+impl RenameExec {
+    /// `names` must have one entry per input column.
+    pub fn new(input: Arc<dyn PhysicalOperator>, names: &[String]) -> Self {
+        let fields: Vec<Field> = input
+            .schema()
+            .fields()
+            .iter()
+            .zip(names.iter())
+            .map(|(f, n)| f.as_ref().clone().with_name(n.clone()))
+            .collect();
+        Self {
+            input,
+            schema: Arc::new(Schema::new(fields)),
+        }
+    }
+}
+
+#[async_trait]
+impl PhysicalOperator for RenameExec {
+    fn schema(&self) -> SchemaRef {
+        self.schema.clone()
+    }
+
+    fn children(&self) -> Vec<Arc<dyn PhysicalOperator>> {
+        vec![self.input.clone()]
+    }
+
+    async fn execute(&self, partition: usize) -> Result<RecordBatchStream> {
+        crate::physical::check_partition(self, partition)?;
+        let input_stream = self.input.execute(partition).await?;
+        let schema = self.schema.clone();
+        let renamed = input_stream.and_then(move |batch| {
+            let schema = schema.clone();
+            async move {
+                // Keep each column's ACTUAL type (a dictionary-encoded join
+                // gather must stay one); only the names change.
+                let fields: Vec<Field> = schema
+                    .fields()
+                    .iter()
+                    .zip(batch.columns().iter())
+                    .map(|(f, c)| Field::new(f.name(), c.data_type().clone(), true))
+                    .collect();
+                let options = arrow::record_batch::RecordBatchOptions::new()
+                    .with_row_count(Some(batch.num_rows()));
+                RecordBatch::try_new_with_options(
+                    Arc::new(Schema::new(fields)),
+                    batch.columns().to_vec(),
+                    &options,
+                )
+                .map_err(Into::into)
+            }
+        });
+        Ok(Box::pin(renamed))
+    }
+
+    fn name(&self) -> &str {
+        "Rename"
+    }
+
+    fn output_partitions(&self) -> usize {
+        self.input.output_partitions()
+    }
+}
+
+impl fmt::Display for RenameExec {
+    fn fmt(&self, f: &mut fmt::Formatter<'_>) -> fmt::Result {
+        write!(f, "Rename")
+    }
+}
